@@ -294,8 +294,8 @@ def run_case(rng, acc):
     if C.canon(b2, 'frame') != frame_b2:
       acc.violation(f'{kind}:editing-original-changes-copy',
                     'frame canon of the copy changed after edits to the original', witness(edits=log2))
-  if len(acc.samples) < 3 and acc.evaluations % 200 < 3:
-    acc.sample({'dag': sketch})
+  if len(acc.samples) < 3 and nb >= 3:
+    acc.sample({'dag': sketch, 'copy_kinds_checked': 3, 'uncopyable_leaf': uncopyable})
 
 
 def run_shard(spec, seed, acc):
